@@ -111,6 +111,7 @@ def pattern_settings():
            name='partitioning covering optional 3x3'),
         mk([C(min_=1, rep=False), C(min_=1, rep=False)], [C([0, 1]), C([0, 1]), C([0, 1])], name='partitioning covering optional 2x3'),
         mk([C(min_=2, rep=False)], [C([1]), C([1]), C([1])], name='partitioning min 2 1x3'),
+        mk([C(min_=2, rep=False), C(min_=2, rep=False)], [C([1]), C([1]), C([1]), C([1])], name='partitioning min 2 2x4 (the one settings beyond 3x3)'),
         mk([C(min_=0, rep=False), C(min_=0, rep=False), C(min_=0, rep=False)],
            [C(min_=0, rep=False), C(min_=0, rep=False), C(min_=0, rep=False)], excluded=[(0, 0), (1, 1), (2, 2)], name='connecting directed'),
         mk([C(min_=0, rep=True), C(min_=0, rep=False)], [C(min_=0, rep=False), C(min_=0, rep=True)], excluded=[(0, 0), (1, 1)],
@@ -204,7 +205,7 @@ def instances(tier, seed):
             # the patterns conditional existence produces (single absences), in two variants
             s = dict(s)
             sp = _simple_patterns(s)
-            s['patterns'] = sp[:1] if (k_s+i_enc) % 2 == 0 else sp[:3]
+            s['patterns'] = sp[:1] if ((k_s+i_enc) % 2 == 0 or '2x4' in (s.get('name') or '')) else sp[:3]
             if (s.get('name') or '').startswith('connecting'):
                 # the connecting pattern needs as many sources as targets in every existence pattern
                 from spec.conn import pattern as _pat
